@@ -13,6 +13,9 @@ C07 - results and final memory do not depend on engine or storage layout.
     final memory of all touched words) is judged by TLC against FJMachine (Trace_FJMachine) - FJMachine has
     no notion of layout, which is the property.
 (3) the C01 generator's images are run on the extra storage configurations as well.
+(4) files whose segment table the Reader loads but no Writer produces (ONE entry of a legal file patched to an odd
+    start / odd length, ops entered on the last words of that segment, flips into pages that share a cache slot)
+    are run on every configuration and judged by TLC on the patched geometry.
 """
 from __future__ import annotations
 
@@ -252,6 +255,75 @@ def _run_scen(args):
     return {"recs": recs}
 
 
+# ---- (4) segment tables the Reader accepts but the Writer refuses (odd start / odd length) ----------------------
+def _run_odd(args):
+    """a legal image is written, then ONE table entry is patched in place (start +-1 and / or length -1): the Reader
+    loads such files; every engine / storage layout must run them like FJMachine on the PATCHED geometry."""
+    import struct
+    idx, case, engine_names = args
+    fjm_run = par.fjm_run()
+    w = case["w"]
+    d = Path(tempfile.mkdtemp(prefix="fjv_c07o_"))
+    recs = []
+    try:
+        path = d / "p.fjm"
+        engines.write_image(path, w, case["version"], case["legal"])
+        b = bytearray(path.read_bytes())
+        (s0, l0), (s1, l1) = case["patch"]
+        at = b.find(struct.pack("<QQ", s0, l0))
+        if at < 0 or b.find(struct.pack("<QQ", s0, l0), at + 1) >= 0:
+            return {"skipped": "table entry not found"}
+        b[at:at + 16] = struct.pack("<QQ", s1, l1)
+        path.write_bytes(bytes(b))
+        segs = case["segs"]          # the patched geometry with its data
+        base = {"w": w, "segs": [[nb(s_, AW), nb(l_, AW)] for s_, l_, _ in segs],
+                "data": [[nb(s_ + i, AW), nb(v, w // 8)] for s_, _, dd in segs for i, v in enumerate(dd) if v], "inp": []}
+        addrs = sorted({s_ + i for s_, l_, dd in segs for i in list(range(min(l_, 12))) + list(range(max(0, l_ - 4), l_))})
+        for en in engine_names:
+            obs = engines.run_engine(fjm_run, path, en, [], w=w, mem_addrs=addrs, budget_s=5.0, ring_len=40)
+            o = {"cause": obs["cause"], "ops": max(obs["ops"], 0), "fault": obs["fault"], "out": obs["out"], "inused": obs["inused"], "mem": obs["mem"],
+                 "hashist": obs["hist"] is not None, "hist": obs["hist"] or [], "ringlen": 40,
+                 "hasstats": obs.get("flips") is not None, "flips": obs.get("flips") or 0, "jumps": obs.get("jumps") or 0}
+            if obs["exc"]:
+                o["cause"] = "exception:" + obs["exc"]
+            r = dict(base)
+            r.update(obs=o, engine=en, case=idx, version=case["version"], storage=obs.get("storage"), odd=case["patch"])
+            recs.append(r)
+    except Exception as e:  # noqa: BLE001
+        return {"skipped": f"{type(e).__name__}: {str(e)[:60]}"}
+    finally:
+        shutil.rmtree(d, ignore_errors=True)
+    return {"recs": recs}
+
+
+def gen_odd_case(rng: random.Random, i: int) -> dict:
+    w = [64, 32, 64, 16][i % 4]
+    dw = 2 * w
+    page = 1 << 14
+    far = rng.choice([16, 16, 32, 48, 1, 3, 17, 1 << 12]) * page + rng.choice([0, 0, 2, page - 8])
+    if w == 16:
+        far = rng.choice([64, 130, 1024])            # 2^16 bits = 4096 words
+    L = rng.choice([4, 6, 8, 16])                     # legal far segment: [far, far + L), all of it data
+    code_len = rng.choice([8, 64, 2 * L + 8])
+    kind = rng.choice(["len-1", "len-1", "start+1", "start+1,len-1"])
+    if kind == "len-1":
+        ps, pl, dl = far, L - 1, L - 2                # data must stay even and inside the segment
+    elif kind == "start+1":
+        ps, pl, dl = far + 1, L, L                    # [far+1, far+L+1): the data moves up by one word
+    else:
+        ps, pl, dl = far + 1, L - 1, L - 2
+    # ops are entered at the last words of the patched segment (flip word inside, jump word possibly outside)
+    entry_word = ps + pl - rng.choice([1, 1, 2, 3])
+    targets = [rng.randrange(code_len * w), far * w + rng.randrange(4 * w), (far + 16 * page) * w + 3 if w > 16 else 5, 0, 1]
+    data = [rng.choice(targets + [entry_word * w, dw * rng.randrange(4)]) % (1 << w) for _ in range(dl)]
+    code = [0] * code_len
+    code[0] = (4 * w + 1)                             # a harmless flip inside the code segment
+    code[1] = (entry_word * w) % (1 << w)
+    legal = [(0, code_len, code), (far, L, data)]
+    segs = [(0, code_len, code), (ps, pl, data)]
+    return {"w": w, "version": rng.randrange(2), "legal": legal, "segs": segs, "patch": ((far, L), (ps, pl)), "kind": kind}
+
+
 def classify(rec, v):
     return c01.classify_v(rec, v)
 
@@ -264,7 +336,7 @@ def run(chk: Check, replay=None):
         "FJCoreMem.tla transcribes _fjcore.c's storage routing (flat window, sentinels, pages with one fast range, API routing) at page size 4; "
         "the scaling map keeps first/second/last-but-one/last word of a page and window-relative positions",
         "the oracle for every real run is FJMachine (Trace_FJMachine), which has no notion of layout",
-        "images are those the Writer can express (no overlapping segments)",
+        "images are those the Writer can express (no overlapping segments), plus files with ONE table entry patched to an odd start / odd length (the Reader loads them)",
     ]
     # ---- (1) exhaustive refinement check ------------------------------------------------------
     if quick:
@@ -310,6 +382,18 @@ def run(chk: Check, replay=None):
             skipped[k] = skipped.get(k, 0) + 1
         else:
             records += o["recs"]
+    # ---- (4) reader-accepted geometries that no writer produces ----------------------------------
+    ocases = [gen_odd_case(rng, i) for i in range(120 if quick else 3000)]
+    outs = par.pmap(_run_odd, [(i, c, extra_engines) for i, c in enumerate(ocases)], so_path=so, procs=16)
+    nodd = 0
+    for o in outs:
+        if "skipped" in o:
+            k = "odd:" + o["skipped"].split(":")[0]
+            skipped[k] = skipped.get(k, 0) + 1
+        else:
+            records += o["recs"]
+            nodd += len(o["recs"])
+    chk.extra["odd_geometry_records"] = nodd
     chk.extra["scenarios"] = len(scen)
     chk.extra["generated_cases"] = ncases
     chk.extra["skipped"] = skipped
